@@ -11,6 +11,7 @@ import (
 	"net"
 	"strconv"
 	"strings"
+	"sync"
 	"time"
 
 	"github.com/DOSNetwork/core/p2p"
@@ -23,7 +24,7 @@ const limit = 1 << 20 // what the PROPERTY says (1 MiB), not what the code says
 func init() {
 	h.Register(&h.Prop{
 		ID:     "C15",
-		Rule:   "cases: rd (explicit short stream × every 2-split / 1-byte / random chunking, EOF at every offset), rdseq (≤50 frames), syn (lengths 1..5, 2^k-1,2^k,2^k+1 ≤ 2^20+1, headers 0 and > limit), wr; non-trivial = stream is delivered in ≥2 chunks or is malformed (truncated / zero / oversize header); distinct = distinct case line",
+		Rule:   "cases: inter (two connections read concurrently under a scripted interleaving of their Read calls), rd (explicit short stream × every 2-split / 1-byte / random chunking, EOF at every offset), rdseq (≤50 frames), syn (lengths 1..5, 2^k-1,2^k,2^k+1 ≤ 2^20+1, headers 0 and > limit), wr; non-trivial = stream is delivered in ≥2 chunks or is malformed (truncated / zero / oversize header); distinct = distinct case line",
 		Gen:    gen,
 		Exec:   exec,
 		Shrink: shrinkLine,
@@ -184,9 +185,92 @@ func oracleRead(stream []byte, got []byte, err error, rest []byte, maxReq int) s
 	return ""
 }
 
+// gate serialises the Read calls of several connections in a scripted order: a Read of connection
+// `id` proceeds only when the next token of `order` is `id` (tokens of finished readers are skipped;
+// once the script is exhausted everybody runs freely).
+type gate struct {
+	mu    sync.Mutex
+	cond  *sync.Cond
+	order string
+	pos   int
+	done  map[byte]bool
+}
+
+func (g *gate) enter(id byte) {
+	g.mu.Lock()
+	defer g.mu.Unlock()
+	for {
+		for g.pos < len(g.order) && g.done[g.order[g.pos]] {
+			g.pos++
+		}
+		if g.pos >= len(g.order) {
+			return
+		}
+		if g.order[g.pos] == id {
+			return
+		}
+		g.cond.Wait()
+	}
+}
+func (g *gate) leave(id byte) { // the Read of `id` has returned
+	g.mu.Lock()
+	if g.pos < len(g.order) && g.order[g.pos] == id {
+		g.pos++
+	}
+	g.cond.Broadcast()
+	g.mu.Unlock()
+}
+func (g *gate) finish(id byte) {
+	g.mu.Lock()
+	g.done[id] = true
+	g.cond.Broadcast()
+	g.mu.Unlock()
+}
+
+type gconn struct {
+	sconn
+	g  *gate
+	id byte
+}
+
+func (c *gconn) Read(b []byte) (int, error) {
+	c.g.enter(c.id)
+	n, err := c.sconn.Read(b)
+	c.g.leave(c.id)
+	return n, err
+}
+
+func showRd(got []byte, err error, c *sconn) string {
+	if err != nil {
+		return fmt.Sprintf("err %s req=%d", errKind(err), c.maxReq)
+	}
+	return fmt.Sprintf("ok %s rest=%s req=%d", h.Hex(got), h.Hex(c.rest()), c.maxReq)
+}
+
 func exec(line string) (res h.Result) {
 	w := strings.Fields(line)
 	switch w[0] {
+	case "inter":
+		sa, sb := h.UnHex(w[1]), h.UnHex(w[3])
+		g := &gate{order: w[5], done: map[byte]bool{}}
+		g.cond = sync.NewCond(&g.mu)
+		ca := &gconn{sconn: sconn{chunks: chunk(sa, csv(w[2]))}, g: g, id: 'a'}
+		cb := &gconn{sconn: sconn{chunks: chunk(sb, csv(w[4]))}, g: g, id: 'b'}
+		var ga, gb []byte
+		var ea, eb error
+		var wg sync.WaitGroup
+		wg.Add(2)
+		go func() { defer wg.Done(); ga, ea = p2p.VerifReadFrom(ca); g.finish('a') }()
+		go func() { defer wg.Done(); gb, eb = p2p.VerifReadFrom(cb); g.finish('b') }()
+		wg.Wait()
+		res.Impl = "A:" + showRd(ga, ea, &ca.sconn) + " B:" + showRd(gb, eb, &cb.sconn)
+		if o := oracleRead(sa, ga, ea, ca.rest(), ca.maxReq); o != "" {
+			res.Oracle = "interleaved-" + o
+		} else if o := oracleRead(sb, gb, eb, cb.rest(), cb.maxReq); o != "" {
+			res.Oracle = "interleaved-" + o
+		}
+		res.Class = "inter"
+		res.Nontrivial = strings.Contains(w[5], "ab") || strings.Contains(w[5], "ba")
 	case "rd":
 		stream, sizes := h.UnHex(w[1]), csv(w[2])
 		c := &sconn{chunks: chunk(stream, sizes)}
@@ -394,6 +478,33 @@ func gen(tier string, rng *h.Rng, emit func(string)) {
 			sz = []int{1}
 		}
 		emit(fmt.Sprintf("rdseq %d %s %s", want, h.Hex(s), csvOf(sz)))
+	}
+	// 6. two connections read concurrently, every interleaving of their first reads scripted:
+	// each must behave as if alone (no state shared between connections)
+	ni := 60
+	if thorough {
+		ni = 1500
+	}
+	for i := 0; i < ni; i++ {
+		pa, pb := rng.Bytes(1+rng.Intn(300)), rng.Bytes(1+rng.Intn(9))
+		big := rng.Intn(3) == 0
+		if big {
+			pa = rng.Bytes(65536 + rng.Intn(1000)) // header bytes 00 01 0x xx: mixing headers changes the size a lot
+		}
+		sa, sb := append(frame(pa), rng.Bytes(rng.Intn(3))...), append(frame(pb), rng.Bytes(rng.Intn(3))...)
+		za := [][]int{{2, 2, 1 << 20}, {1, 1, 2, 1 << 20}, {3, 1, 1 << 20}, {1}, {1 + rng.Intn(3)}}[rng.Intn(5)]
+		if big { // only the header is fragmented: the model's step machine is quadratic in the number of chunks
+			za = [][]int{{2, 2, 1 << 20}, {1, 1, 2, 1 << 20}, {3, 1, 1 << 20}, {1, 2, 1, 1 << 20}}[rng.Intn(4)]
+		}
+		zb := [][]int{{4, 1 << 20}, {1}, {2, 2, 1 << 20}, {1 + rng.Intn(4)}}[rng.Intn(4)]
+		var order []byte
+		for j, k := 0, 2+rng.Intn(10); j < k; j++ {
+			order = append(order, "ab"[rng.Intn(2)])
+		}
+		if i < 16 { // directed: A reads part of its header, B reads a whole header, A continues
+			order = []byte([]string{"aba", "abba", "aabaa", "abab", "baab", "ababab", "aabbaabb", "abbbbba"}[i%8])
+		}
+		emit(fmt.Sprintf("inter %s %s %s %s %s", h.Hex(sa), csvOf(za), h.Hex(sb), csvOf(zb), string(order)))
 	}
 	// 5. random short malformed streams
 	nr := 300
